@@ -151,6 +151,22 @@ CHECKS = {
              "the call sites in the finding's signature.",
         note="Found the two defects the property anticipates on the pinned tree (calculate_scores ignored --seed; the Gibbs samplers drew "
              "from global state / OS entropy), both repaired by fix: commits."),
+    "C19": dict(
+        engine="orchsim", design="6.19", category="fault_enumeration",
+        technique=TECH + ": the real orchestration script under crash/restart with proxied os/shutil/glob/subprocess, a stubbed nextflow (DAG, seeded completion order, per-file publication), census-based crash placement, reference trace + reference model of the orchestration",
+        text="The real nextflow/scripts/batchie.py runs in a fresh module instance per (re)start against a scratch output tree; every "
+             "primitive file-system effect (each mkdir inside makedirs, each entry removed by rmtree), every launch, every process "
+             "completion and every published file of the stubbed workflows is a crash site. A fault-free census run under the same "
+             "seed numbers the sites and yields the reference trace; faulty runs place 1-2 (thorough: up to 3, and ALL single sites of "
+             "sampled configurations) crashes, restart, and delete exactly the directories the script names. Oracles: completed steps "
+             "are never deleted or re-executed; every recorded step has the reference step's inputs and selection; the step sequence "
+             "has no gap; each step starts from its predecessor's output with the batch's excludes and the iteration's thetas "
+             "(reference model); bounded liveness (restart budget, launch cap, no restart dying without naming a directory).",
+        note="nextflow itself is a hand-written stub (cross-checked against the .nf sources at every start; mismatch = harness error). "
+             "Publication is per-file atomic and in completion order (publishDir default symlink mode); asynchronous publication order is "
+             "not part of the fault model (available behind VERIF_PUBLISH_REORDER=1, see DESIGN). MODEL process bodies by default, REAL "
+             "CLI bodies in ~1% of runs. Found two genuine defects on the pinned tree (empty iteration directory; marker-before-outputs "
+             "in prospective mode), both repaired by fix: commits in the script."),
 }
 
 NOT_APPLICABLE = {
